@@ -70,9 +70,16 @@ func init() {
 			for i := 0; i < na; i++ {
 				cs = append(cs, core.MkCase("C17", "aggregate", i, seed, c17AggParams{Seqs: per}))
 			}
+			nl := 2
+			if tier == "thorough" {
+				nl = 8
+			}
+			for i := 0; i < nl; i++ {
+				cs = append(cs, core.MkCase("C17", "largesum", i, seed, nil))
+			}
 			return cs
 		},
-		Kinds:  map[string]core.RunFunc{"measure": c17Measure, "aggregate": c17Aggregate},
+		Kinds:  map[string]core.RunFunc{"measure": c17Measure, "aggregate": c17Aggregate, "largesum": c17LargeSum},
 		Floors: map[string]int64{"measured_iterations": 100, "sequences": 20000, "snapshots_checked": 50000, "empty_periods": 1000},
 	})
 }
@@ -129,8 +136,17 @@ func c17Measure(c *core.Case, o *core.Outcome) {
 	}
 	spec.MaxIterations = uint64(p.N)
 	spec.IgnoreDropped = true
+	var inst *metrics.Metrics
+	if c.Seed%2 == 0 || p.N%2 == 0 {
+		// a first run of the same scenario on the same metrics instance: the exported durations of the
+		// run that is measured afterwards must still be its own
+		warm := engine.Execute(ctx, spec, engine.NewLog(), func(t *f1testing.T) f1testing.RunFn { return func(t *f1testing.T) {} }, nil, nil)
+		if warm.NewErr == nil {
+			inst = warm.Metrics
+		}
+	}
 	tStart := time.Now()
-	r := engine.Execute(ctx, spec, l, scenario, nil, nil)
+	r := engine.Execute(ctx, spec, l, scenario, nil, inst)
 	total := time.Since(tStart)
 	if r.NewErr != nil {
 		o.Inconc("harness: cannot build run: %v", r.NewErr)
@@ -355,4 +371,48 @@ func c17Aggregate(c *core.Case, o *core.Outcome) {
 			o.Sample = map[string]any{"sequence": trace}
 		}
 	}
+}
+
+// c17LargeSum: the integer mean must stay exact when the accumulated duration is far beyond 2^53 ns
+// (about 104 days of cumulative iteration time, e.g. 2000 users for 75 minutes).
+func c17LargeSum(c *core.Case, o *core.Outcome) {
+	r := c.Rng("large")
+	stats := &progress.Stats{}
+	d := int64(1_000_000_000) + int64(1+r.IntN(999))
+	if r.IntN(2) == 0 {
+		d = int64(3_600_000_000_000) + int64(1+r.IntN(999))
+	}
+	n := 15_000_000 + r.IntN(1_000_000)
+	every := 1_000_000 + r.IntN(1000)
+	if d > int64(time.Hour) {
+		// stay inside the documented capacity of the accumulator (int64 nanoseconds, about 290 years)
+		n, every = 2_000_000+r.IntN(100_000), 150_000+r.IntN(1000)
+	}
+	var life c17Ref
+	for i := 1; i <= n; i++ {
+		stats.Record(metrics.SuccessResult, d)
+		life.add(d)
+		if i%every == 0 || i == n {
+			var s progress.Snapshot
+			if i == n {
+				s = stats.Total()
+			} else {
+				s = stats.Snapshot(time.Second)
+			}
+			o.AddObs("snapshots_checked", 1)
+			got, want := s.SuccessfulIterationDurations, life.snap()
+			if got != want {
+				o.Violate("largesum", "after %d records of %d ns (accumulated %d ns): lifetime figures %+v, exact reference %+v", i, d, life.sum, got, want)
+				return
+			}
+			if !(got.Min <= got.Average && got.Average <= got.Max) {
+				o.Violate("largesum-order", "after %d records of %d ns: min %v mean %v max %v not ordered", i, d, got.Min, got.Average, got.Max)
+				return
+			}
+		}
+	}
+	o.Events = int64(n)
+	o.AddObs("sequences", 1)
+	o.Sig("largesum:d=%ds", d/1_000_000_000)
+	o.Sample = map[string]any{"records": n, "duration_ns": d, "accumulated_ns": life.sum}
 }
